@@ -82,14 +82,21 @@ def parse(lexer):
             lexer.getPos(),
         )
     if isinstance(result, NodeReturn):
-        result = result.expression
+        result = _return_value(result)
     elif isinstance(result, NodeBlock):
         expressions = result.expressions
         if len(expressions) > 0:
             lastexpr = expressions[-1]
             if isinstance(lastexpr, NodeReturn):
-                expressions[-1] = lastexpr.expression
+                expressions[-1] = _return_value(lastexpr)
     return result
+
+
+def _return_value(node):
+    # a bare "return;" has no expression: its value is NULL
+    if node.expression is None:
+        return NodeNull(node.pos)
+    return node.expression
 
 
 def parse_bare_block(lexer, toplevel=False):
@@ -1057,6 +1064,12 @@ def parse_primary_expr(lexer, unary_minus=False):
             result = parse_list_literal(lexer, token)
             if lexer.peekn(1, "=", "operator"):
                 identifiers = []
+                if not isinstance(result, NodeList):
+                    raise CklSyntaxError(
+                        f"Destructuring assign expected "
+                        f"list of identifiers but got {result}",
+                        token.pos,
+                    )
                 for item in result.items:
                     if not isinstance(item, NodeIdentifier):
                         raise CklSyntaxError(
